@@ -91,13 +91,15 @@ def life_plans(tier):
                 dict(name="share3", mode="alphabet", theme="share", objs=[1, 2], depth=3),
                 dict(name="all3", mode="alphabet", theme="all", objs=[1], depth=3, cap=1500),
                 dict(name="random", mode="random", objs=[1, 2], depth=8, num=40, cap=400)]
-    return [dict(name="all3", mode="alphabet", theme="all", objs=[1], depth=3),
-            dict(name="carry4", mode="alphabet", theme="carry", objs=[1], depth=4),
-            dict(name="share4", mode="alphabet", theme="share", objs=[1, 2], depth=4),
-            dict(name="story4", mode="alphabet", theme="story", objs=[1], depth=4),
-            dict(name="item4", mode="alphabet", theme="item", objs=[1], depth=4),
-            dict(name="all4", mode="alphabet", theme="all", objs=[1], depth=4, cap=20000),
-            dict(name="random", mode="random", objs=[1, 2], depth=12, num=400, cap=5000)]
+    # (caps: a sample of the enumerated behaviours, drawn with the run's seed, is replayed when there are more)
+    return [dict(name="all3", mode="alphabet", theme="all", objs=[1], depth=3, cap=20000),
+            dict(name="carry4", mode="alphabet", theme="carry", objs=[1], depth=4, cap=12000),
+            dict(name="share3", mode="alphabet", theme="share", objs=[1, 2], depth=3),
+            dict(name="share4", mode="alphabet", theme="share", objs=[1, 2], depth=4, cap=12000),
+            dict(name="story4", mode="alphabet", theme="story", objs=[1], depth=4, cap=12000),
+            dict(name="item4", mode="alphabet", theme="item", objs=[1], depth=4, cap=12000),
+            dict(name="all4", mode="alphabet", theme="all", objs=[1], depth=4, cap=8000),
+            dict(name="random", mode="random", objs=[1, 2], depth=12, num=400, cap=2500)]
 
 
 def lite_plans(tier, prop):
@@ -200,8 +202,13 @@ A_OBS = [
 
 def obs_life_plans(tier):
     """histories for the read-side properties: the accessors are called at the start and after every step"""
-    if tier != "quick":
-        return life_plans(tier)
+    if tier != "quick":         # every step is followed by a full sweep of the accessors (twice): smaller samples
+        return [dict(name="all2", mode="alphabet", theme="all", objs=[1], depth=2),
+                dict(name="all3", mode="alphabet", theme="all", objs=[1], depth=3, cap=6000),
+                dict(name="carry4", mode="alphabet", theme="carry", objs=[1], depth=4, cap=3000),
+                dict(name="story4", mode="alphabet", theme="story", objs=[1], depth=4, cap=3000),
+                dict(name="item4", mode="alphabet", theme="item", objs=[1], depth=4, cap=3000),
+                dict(name="random", mode="random", objs=[1, 2], depth=12, num=200, cap=1200)]
     return [dict(name="all2", mode="alphabet", theme="all", objs=[1], depth=2),
             dict(name="all3", mode="alphabet", theme="all", objs=[1], depth=3, cap=800),
             dict(name="random", mode="random", objs=[1, 2], depth=8, num=25, cap=200)]
